@@ -57,6 +57,8 @@ func main() {
 		}
 		fmt.Println("NOT REPRODUCED")
 		os.Exit(0)
+	case "manifest":
+		os.Stdout.Write(sym.Manifest())
 	case "list":
 		for id, p := range sym.Properties {
 			fmt.Println(id, p.Dirs, p.Prefix)
